@@ -23,6 +23,7 @@ type AtomInfo struct {
 	Vals  []ssa.Value  // operand SSA values of the first occurrence (for provenance/K6 rules)
 	Instr ssa.Instruction
 	Fn    *ssa.Function
+	Ctx   *FuncCtx // context of the first occurrence (operand access paths are relative to it)
 }
 
 type Analysis struct {
@@ -98,7 +99,7 @@ func (a *Analysis) ctxWith(fn *ssa.Function, env map[ssa.Value]string, prefix st
 
 func (a *Analysis) atom(name, kind string, fc *FuncCtx, in ssa.Instruction, vals []ssa.Value, args ...string) *bddNode {
 	if _, ok := a.Atoms[name]; !ok {
-		a.Atoms[name] = &AtomInfo{Name: name, Kind: kind, Args: args, Vals: vals, Instr: in, Fn: fc.Fn}
+		a.Atoms[name] = &AtomInfo{Name: name, Kind: kind, Args: args, Vals: vals, Instr: in, Fn: fc.Fn, Ctx: fc}
 	}
 	if a.byFn == nil {
 		a.byFn = map[*ssa.Function]map[string]*AtomInfo{}
@@ -107,7 +108,7 @@ func (a *Analysis) atom(name, kind string, fc *FuncCtx, in ssa.Instruction, vals
 		a.byFn[fc.Fn] = map[string]*AtomInfo{}
 	}
 	if _, ok := a.byFn[fc.Fn][name]; !ok {
-		a.byFn[fc.Fn][name] = &AtomInfo{Name: name, Kind: kind, Args: args, Vals: vals, Instr: in, Fn: fc.Fn}
+		a.byFn[fc.Fn][name] = &AtomInfo{Name: name, Kind: kind, Args: args, Vals: vals, Instr: in, Fn: fc.Fn, Ctx: fc}
 	}
 	return a.B.Var(name)
 }
@@ -598,9 +599,7 @@ func (fc *FuncCtx) nonNil0(v ssa.Value) *bddNode {
 	case *ssa.Alloc, *ssa.MakeClosure, *ssa.MakeMap, *ssa.MakeSlice, *ssa.MakeChan, *ssa.Function, *ssa.FieldAddr, *ssa.IndexAddr, *ssa.Global:
 		return B.True
 	case *ssa.MakeInterface:
-		if nillable(x.X.Type()) {
-			return fc.NonNil(x.X)
-		}
+		// an interface made from a concrete value is never the nil interface (even from a nil pointer)
 		return B.True
 	case *ssa.ChangeInterface:
 		return fc.NonNil(x.X)
